@@ -326,6 +326,11 @@ var long = ev.NewCheck("C08", "strings-4-64",
 			b = []byte{0xFF, typ}
 			b = append(b, rapid.SliceOfN(rapid.ByteRange(0x80, 0xFF), 1, 20).Draw(t, "continuationRun")...)
 			if rapid.Bool().Draw(t, "terminated?") {
+				// the library computes the length modulo 2^32 and allocates that much before it
+				// looks at the data: keep the low 32 bits small (the groups above them stay arbitrary)
+				// so that a case costs kilobytes, not gigabytes
+				b[len(b)-1] &= 0xF0
+				b = append(b, 0x80, 0x80, 0x80)
 				b = append(b, rapid.ByteRange(0, 0x7F).Draw(t, "lastLengthByte"))
 				b = append(b, rapid.SliceOfN(rapid.Byte(), 0, 12).Draw(t, "payload")...)
 			}
